@@ -586,6 +586,14 @@ class CallMixin(object):
         old_env = env
         # havoc
         self.havoc(st, c.modifies, env, old)
+        # ghost arrays: functional update  G[idx] := val  (index and value evaluated in the pre-state)
+        for gname, idx_text, val_text in c.ghost_stores:
+            iv, _ = self.spec_value(idx_text, old, env)
+            vv, _ = self.spec_value(val_text, old, env)
+            vv = self.box(st, vv)
+            arr = old.ghost[gname]
+            key = self.as_int(iv) if arr.sort().domain() == u.Int else self.box(st, iv).z
+            st.ghost[gname] = z3.Store(arr, key, vv.z)
         if not c.pure:
             na = u.fresh_int("alloc")
             st.assume(na >= st.alloc)
